@@ -383,6 +383,22 @@ theorem tail_with_error_lost_in_scan (P : Prims) (c : Conn) (m : Bytes) (hm : c.
   unfold readLast
   simp [hcl, hm]
 
+/-- **A timeout that consumed nothing changes nothing** (after the magic): a `Read` that finds the
+handshake buffer drained and nothing on the wire — and so ends in a read-deadline timeout — leaves
+both stream positions, the magic state and `closed` untouched (only the empty `rxBuf` is released);
+the reads that follow behave as if the call had not been made. -/
+theorem timeout_consumes_nothing (P : Prims) (c : Conn) (hm : c.rxMagic = none) (hcl : c.closed = false)
+    (hb : c.rxBuf.getD [] = []) (max : Nat) :
+    O4.Obfs3.read P c max [] = .block { c with rxBuf := none } [] := by
+  simp only [O4.Obfs3.read, hcl, Bool.false_eq_true, ↓reduceIte, hm]
+  unfold readData
+  cases hb' : c.rxBuf with
+  | none => simp [readNet, Net.read, hm, hcl]
+  | some buf =>
+    cases buf with
+    | nil => simp [readNet, Net.read, hm, hcl]
+    | cons x xs => simp [hb'] at hb
+
 /-! ### over-padding and missing magic -/
 
 /-- **Too much padding ⇒ rejected, for every history.** The receiver waits for magic `m`; the
